@@ -135,6 +135,16 @@ def family_pair_executions(a, b, every=1, offset=0):
             yield [init(2)] + il
 
 
+def port_pair_executions(a, b, every=1, offset=0):
+    """Two instances play songs that name the same two MIDI ports (FF 09) in opposite order: the port -> channel block
+    map belongs to one instance and one song; all interleavings of load / play / play."""
+    ha = [create(a, 44100), {"e": "Load", "song": 7}, {"e": "Play", "fr": 3000}, {"e": "Play", "fr": 3000}]
+    hb = [create(b, 44100), {"e": "Load", "song": 6}, {"e": "Play", "fr": 3000}, {"e": "Play", "fr": 3000}]
+    for q, il in enumerate(interleavings([ha, hb])):
+        if q % every == offset % every:
+            yield [init(2)] + il
+
+
 CRITICAL_PAIRS = [(1, 8), (8, 1), (4, 4), (2, 2), (0, 5), (1, 1), (8, 8)]
 
 
@@ -150,6 +160,8 @@ def exhaustive_executions(quick, seed):
         hs += list(lfo_pair_executions(a, b, 1 if not quick else 4, seed))
     for (a, b) in [(0, 0), (0, 2), (2, 0), (4, 5), (3, 6), (1, 1)]:
         hs += list(family_pair_executions(a, b, 1 if not quick else 5, seed + a))
+    for (a, b) in [(0, 0), (0, 2), (4, 5)]:
+        hs += list(port_pair_executions(a, b, 1 if not quick else 3, seed + b))
     trip = [(1, 8, 4), (8, 4, 1), (4, 1, 8), (0, 2, 5), (3, 6, 2), (2, 5, 0)]
     for (a, b, c) in trip:
         hs += list(triple_executions(a, b, c, 40 if not quick else 240, seed + a))
